@@ -45,7 +45,7 @@ func TestMain(m *testing.M) {
 		evid.Spec{Name: "TestReplay", Kind: "plain", QuickShards: 1, ThoroughShards: 1},
 		evid.Spec{Name: "TestEveryTruncation", Kind: "plain", QuickShards: 16, ThoroughShards: 16, TimeoutS: 3000},
 		evid.Spec{Name: "TestPropBitFlip", Kind: "rapid", Quick: 640, Thorough: 16000, QuickShards: 16, ThoroughShards: 16},
-		evid.Spec{Name: "TestPropLargeTruncation", Kind: "rapid", Quick: 64, Thorough: 800, QuickShards: 16, ThoroughShards: 16},
+		evid.Spec{Name: "TestPropLargeTruncation", Kind: "rapid", Quick: 96, Thorough: 960, QuickShards: 16, ThoroughShards: 16},
 		evid.Spec{Name: "TestPropInjectedReadError", Kind: "rapid", Quick: 1600, Thorough: 40000, QuickShards: 16, ThoroughShards: 16},
 	)
 	evid.Commands("obiconvert", "obicount", "obigrep")
@@ -63,6 +63,7 @@ type FileSpec struct {
 	NRec   int
 	SeqLen int
 	Salt   int
+	Giant  int // > 0 (FASTA/FASTQ): the second record (the only one if NRec = 1) holds this many nucleotides: longer than the 1 MiB read chunk
 }
 
 func render(f FileSpec) ([]byte, int) {
@@ -73,6 +74,9 @@ func render(f FileSpec) ([]byte, int) {
 			second = b.Len()
 		}
 		n := f.SeqLen + (i*5+f.Salt)%11
+		if f.Giant > 0 && i == min(1, f.NRec-1) {
+			n = f.Giant
+		}
 		s := make([]byte, n)
 		x := uint32(i*7919+f.Salt)*2654435761 + 1
 		for j := range s {
@@ -509,6 +513,13 @@ func TestPropLargeTruncation(t *testing.T) {
 			Command:  rapid.SampledFrom([]string{"obiconvert", "obiconvert", "obicount"}).Draw(rt, "cmd"),
 			FlipByte: -1,
 		}
+		giant := rapid.IntRange(0, 2).Draw(rt, "giant") == 2
+		if giant {
+			// a chromosome among reads: the fault arrives while the reader holds a single, unfinished entry
+			c.File.Format = rapid.SampledFrom([]string{"fasta", "fasta", "fastq"}).Draw(rt, "giant_format")
+			c.File.NRec = rapid.IntRange(1, 40).Draw(rt, "giant_nrec")
+			c.File.Giant = rapid.IntRange(1100000, 2600000).Draw(rt, "giant_len")
+		}
 		orig, _ := render(c.File)
 		z := compress(c.Codec, orig)
 		switch rapid.IntRange(0, 3).Draw(rt, "where") {
@@ -528,7 +539,10 @@ func TestPropLargeTruncation(t *testing.T) {
 		if !c.Stdin {
 			c.Multi = rapid.IntRange(0, 3).Draw(rt, "multi") == 0
 		}
-		cl := []string{"large_file"}
+		cl := []string{"large_file", "format:" + c.File.Format}
+		if giant {
+			cl = append(cl, "record_longer_than_the_read_chunk")
+		}
 		if c.Cut >= len(z)-12 {
 			cl = append(cl, "cut_in_trailer")
 		}
